@@ -53,6 +53,8 @@ impl TypeName {
                     .collect::<String>()
                     .trim_end_matches('_')
                     .to_string();
+                // a name without any ASCII letter or digit must still be an identifier
+                let name = if name.is_empty() { "T".to_string() } else { name };
                 let res = match self.name_index.get_mut(&name) {
                     None => {
                         self.name_index.insert(name.clone(), 0);
